@@ -312,6 +312,7 @@ def session(root, hist, start, t0, compress):
     from joblib import Memory, expires_after
     import copy
     warnings.simplefilter("ignore")
+    __import__("logging").disable(50)
     clock = simfs.Clock(t0).install()
     umod = simfs.load_module(root, "umod")
     mem = Memory(os.path.join(root, "cache"), verbose=0, compress=compress)
